@@ -24,7 +24,7 @@ ToSetM(s) == {s[i] : i \in 1..Len(s)}
 (* ---- the term language of exported signatures ---------------------------------------------------
    d.rows[k] = the row-valued fields of node k-1 of the wire document, every type translated on its own to a term and projected to
        [k |-> "ty", s]  (any other term, printed)   [k |-> "adt", rows]   [k |-> "ctrl", row]   [k |-> "fn", ins, outs]
-   in a record of one shape [a, b, c, rows] (unused fields empty):
+   in a record of one shape [a, b, c, rows, targs] (unused fields empty; targs = the type arguments of a Call / LoadFunction):
        DFG/CFG/Extension/Call/LoadFunction/CallIndirect/FuncDefn/FuncDecl  a = inputs, b = outputs (of signature / instantiation / body)
        LoadConstant b = <<datatype>>       Conditional rows = sum_rows, a = other_inputs, b = outputs
        TailLoop a = just_inputs, b = just_outputs, c = rest      DataflowBlock a = inputs, rows = sum_rows, c = other_outputs
@@ -51,11 +51,11 @@ L(row) == [k |-> "list", parts |-> row]
 Wild   == [k |-> "ty", s |-> "Wildcard()"]
 OpTermOK(op, r, m) ==
   CASE op.op = "Call" -> /\ m.opsym = "core.call" /\ Len(m.opargs) = 3 /\ m.opargs[1] = L(r.a) /\ m.opargs[2] = L(r.b)
-                         /\ m.ncalleeargs = Len(op.type_args)                              \* the symbol is applied to the call's type arguments
+                         /\ m.ncalleeargs = Len(op.type_args) /\ m.calleeargs = r.targs     \* the symbol is applied to the call's type arguments, in order
     [] op.op = "CallIndirect" -> m.opsym = "core.call_indirect" /\ m.opargs = <<L(r.a), L(r.b)>>
     [] op.op = "LoadConstant" -> m.opsym = "core.load_const" /\ Len(m.opargs) = 2 /\ m.opargs[1] \in {r.b[1], Wild}
     [] op.op = "LoadFunction" -> /\ m.opsym = "core.load_const" /\ Len(m.opargs) = 2 /\ m.opargs[1] \in {Fn(r.a, r.b), Wild}
-                                 /\ m.ncalleeargs = Len(op.type_args)
+                                 /\ m.ncalleeargs = Len(op.type_args) /\ m.calleeargs = r.targs
     [] op.op = "Tag" -> /\ m.opsym = "core.make_adt"
                         /\ m.opargs = <<L([j \in 1..Len(r.rows) |-> L(r.rows[j])]), L(r.rows[op.tag + 1]), [k |-> "lit", s |-> ToString(op.tag)]>>
     [] OTHER -> TRUE
